@@ -46,6 +46,164 @@ func checkC02(c *Check) {
 	c02Recovery(c)
 	c02TryDelivery(c)
 	c02Abort(c)
+	c02CommitRecordWriters(c)
+	c02RecordMaps(c)
+}
+
+// R2b: the commit record (*.meta) is only ever created or replaced by a rename whose source file was synced in the
+// same function (or, on Windows, created directly by the metadata writer). Recovery must never promote a leftover
+// temporary file.
+func c02CommitRecordWriters(c *Check) {
+	p := c.P
+	c.Rule("R2b", "every operation of the queue package that creates or replaces a *.meta commit record is a rename of a file that was synced in the same function (or the Windows branch of the metadata writer)", 1)
+	pk := p.Pkg(queueRel)
+	if pk == nil {
+		return
+	}
+	n := 0
+	p.AllFuncs([]*packagesPkg{pk}, func(fi *FuncInfo) {
+		info := fi.Info()
+		r := &RuleCtx{C: c, FI: fi, F: p.FlowOfFunc(fi), Info: info}
+		for _, pt := range r.F.Points() {
+			for _, call := range callsAt(pt.Node()) {
+				var dst ast.Expr
+				kind := ""
+				switch {
+				case isRename(info, call) && len(call.Args) == 2:
+					dst, kind = call.Args[1], "rename"
+				case isCreate(info, call) && len(call.Args) >= 1:
+					dst, kind = call.Args[0], "create"
+				case isCall(info, call, "os.WriteFile", "io/ioutil.WriteFile", "os.Link", "os.Symlink") && len(call.Args) >= 2:
+					dst, kind = call.Args[0], "write"
+					if isCall(info, call, "os.Link", "os.Symlink") {
+						dst = call.Args[1]
+					}
+				}
+				if dst == nil {
+					continue
+				}
+				suf, ok := pathSuffix(info, fi.Decl.Body, dst, 0)
+				if ok && suf != ".meta" {
+					continue
+				}
+				// a destination whose role cannot be resolved to a constant suffix may be the commit record: it is
+				// judged like one (renames in the spool directory always name their role with a constant today)
+				if !ok && kind != "rename" {
+					continue
+				}
+				n++
+				c.SawFunc(fi.Name())
+				key := fi.Obj.Name() + ":" + kind + ":.meta"
+				msg := ""
+				switch kind {
+				case "rename":
+					syncs := r.Calls(isSync)
+					if len(syncs) == 0 {
+						msg = "a file is renamed onto the *.meta commit record without having been synced in this function: a leftover / half-written temporary file (e.g. one found at start-up) replaces the good record and the message's pending recipients are lost"
+					} else if ok, w := r.MustPass(r.Entry(), true, isPt([]Pt{pt}), isPt(syncs)); !ok {
+						msg = "the rename onto *.meta is reachable without a preceding Sync: " + w
+					}
+				case "create":
+					// only on the windows edge of the metadata writer
+					onWin := r.F.AvoidImplying(func(atom ast.Expr) (bool, bool) {
+						ws, ok := isGOOSWindows(info, atom)
+						return ws == 0, ok
+					})
+					if _, f := r.F.Reach(Query{From: r.Entry(), Inclusive: true, Target: isPt([]Pt{pt}), AvoidEdge: onWin}); f {
+						msg = "the commit record is created/truncated in place (a crash mid-write destroys it)"
+					}
+				default:
+					msg = "the commit record is written in place"
+				}
+				c.Hold("R2b", key, call.Pos(), msg == "", msg)
+			}
+		}
+	})
+	if n == 0 {
+		c.Fail("R2b", "queue:meta-writers", token.NoPos, "undecided: no writer of the commit record found")
+	}
+}
+
+// R7: maps of the persisted record that the delivery loop writes are non-nil in every record that can be read back:
+// either the writer guards nil → make, or the constructor used before the first persist initialises them.
+func c02RecordMaps(c *Check) {
+	c.Rule("R7", "every map field of the spooled record that tryDelivery writes is initialised when the record is first persisted, or made on demand before the write (a record read back after a crash must not carry a nil map)", 2)
+	td := c.need("R7", queueRel, "Queue", "tryDelivery")
+	st := c.need("R7", queueRel, "Queue", "Start")
+	if td == nil || st == nil {
+		return
+	}
+	info := td.Info
+	written := map[string]token.Pos{}
+	ast.Inspect(td.FI.Decl.Body, func(n ast.Node) bool {
+		var target ast.Expr
+		switch s := n.(type) {
+		case *ast.AssignStmt:
+			for _, l := range s.Lhs {
+				if ix, ok := ast.Unparen(l).(*ast.IndexExpr); ok {
+					target = ix.X
+					if fv := fieldOf(info, target); fv != nil {
+						if _, isMap := fv.Type().Underlying().(*types.Map); isMap && typeIs(info.TypeOf(ast.Unparen(target).(*ast.SelectorExpr).X), modPath+"/"+queueRel, "QueueMetadata") {
+							written[fv.Name()] = s.Pos()
+						}
+					}
+				}
+			}
+		case *ast.IncDecStmt:
+			if ix, ok := ast.Unparen(s.X).(*ast.IndexExpr); ok {
+				if fv := fieldOf(info, ix.X); fv != nil {
+					if _, isMap := fv.Type().Underlying().(*types.Map); isMap {
+						written[fv.Name()] = s.Pos()
+					}
+				}
+			}
+		}
+		return true
+	})
+	if len(written) == 0 {
+		c.Fail("R7", "tryDelivery:map-writes", td.FI.Decl.Pos(), "undecided: no map of the record is written")
+		return
+	}
+	// initialised in the Start literal?
+	initd := map[string]bool{}
+	ast.Inspect(st.FI.Decl.Body, func(n ast.Node) bool {
+		if cl, ok := n.(*ast.CompositeLit); ok && typeIs(st.Info.TypeOf(cl), modPath+"/"+queueRel, "QueueMetadata") {
+			for _, el := range cl.Elts {
+				if kv, ok := el.(*ast.KeyValueExpr); ok {
+					if id, ok := kv.Key.(*ast.Ident); ok && !isNilIdent(st.Info, kv.Value) {
+						initd[id.Name] = true
+					}
+				}
+			}
+		}
+		return true
+	})
+	for name, pos := range written {
+		// guarded: `if meta.X == nil { meta.X = make(...) }` dominating the write
+		guarded := false
+		ast.Inspect(td.FI.Decl.Body, func(n ast.Node) bool {
+			is, ok := n.(*ast.IfStmt)
+			if !ok || is.End() > pos {
+				return true
+			}
+			be, ok := ast.Unparen(is.Cond).(*ast.BinaryExpr)
+			if !ok || be.Op != token.EQL || !isNilIdent(info, be.Y) {
+				return true
+			}
+			if fv := fieldOf(info, be.X); fv != nil && fv.Name() == name {
+				for _, s := range is.Body.List {
+					if nodeAssigns(s, func(l, rhs ast.Expr) bool {
+						fl := fieldOf(info, l)
+						return fl != nil && fl.Name() == name && rhs != nil && !isNilIdent(info, rhs)
+					}) {
+						guarded = true
+					}
+				}
+			}
+			return true
+		})
+		c.Hold("R7", "QueueMetadata."+name, pos, guarded || initd[name], "tryDelivery writes into the record's "+name+" map, but the record persisted at acceptance does not initialise it and the write is not guarded: a message recovered from that first record panics on its first failed recipient (assignment to entry in nil map), is marked broken and never retried")
+	}
 }
 
 var (
